@@ -738,6 +738,7 @@ func (x *fnv) havocLoop(s *State, w *writeSet, lp *loopCtx, tag string) []string
 	sortObjs(objs)
 	// allocation inside the loop: bump the allocation frontier first, so that the havocked
 	// variables may refer to objects allocated by earlier iterations
+	s.syncTops()
 	top := c.Fresh("top", SInt)
 	s.Assume(c.Ge(top, s.allocTop))
 	headTop := s.allocTop
